@@ -66,6 +66,10 @@ func hashStr(s string) uint64 {
 	return h.Sum64()
 }
 
+// Note on memory: every QED balloon allocates a 1.15 GB BatchCache which the Go runtime
+// clears page by page; creating a balloon therefore costs 0.5-3 s of page faults. Checks
+// keep the number of balloons per run modest and bound the number alive at once.
+
 // ---------- known findings ----------
 
 type Finding struct {
